@@ -357,3 +357,17 @@ Definition C10_mid_names_nodup_stmt : Prop :=
   forall m, mid_names_ok m = true -> m_got m = Some (mid_items m) /\ NoDup (map fst (mid_items m)).
 Definition C10_mid_nested_flattens_to_flat_stmt : Prop :=
   forall m, mid_names_ok m = true -> option_map flat_items_dict (m_get_params m false) = m_got m.
+
+(** Midline positional round trip (symmetric LNL spread, with or without mixing, with or
+    without central / unknown models): every accepted v comes back from get_params *)
+Definition C10_mid_set_get_positional_stmt : Prop :=
+  forall m v rest, mid_set_ok m = true -> ml_symL m = true -> length v = length (mid_items m) ->
+    let r := m_set_params m (vals v ++ rest) [] in
+    snd r <> None ->
+    option_map (map snd) (m_got (fst r)) = Some v /\ option_map (map fst) (m_got (fst r)) = Some (map fst (mid_items m)).
+(** Midline keyword round trip, all four use_mixing x LNL symmetry settings *)
+Definition C10_mid_set_get_keyword_stmt : Prop :=
+  forall m v, mid_set_ok m = true -> length v = length (mid_items m) ->
+    let r := m_set_params m [] (kw_of (map fst (mid_items m)) v) in
+    snd r <> None ->
+    option_map (map snd) (m_got (fst r)) = Some v /\ option_map (map fst) (m_got (fst r)) = Some (map fst (mid_items m)).
